@@ -47,9 +47,9 @@ CLAUSE = {
     "assign.terminator:char": "assignment of a shorter string wrote no terminating zero unit",
     "assign.terminator:wide": "assignment of a shorter string wrote no terminating zero unit",
     "assign.tail": "assignment of a shorter string changed elements after the terminator",
-    "string.raised": "ffi.string raised on valid units",
+    "string.raised": "ffi.string raised on valid units or returned an object that is not a valid str/bytes",
     "string.stop": "ffi.string did not stop at the first zero unit within maxlen / the array length",
-    "unpack.raised": "ffi.unpack raised on valid units",
+    "unpack.raised": "ffi.unpack raised on valid units or returned an object that is not a valid str/bytes",
     "unpack.value": "ffi.unpack did not return the decoding of exactly `length` units",
     "unpack.units": "ffi.unpack did not return exactly `length` units",
 }
@@ -160,18 +160,22 @@ def rec_new(lab, T, decl, s, how):
             "T": T, "how": how}
 
 
+VIEW = {True: "array", False: "pointer", "field": "field"}
+UNVIEW = {"array": True, "pointer": False, "field": "field"}
+
+
 def rec_string(lab, T, mem, isarr, maxlen):
     about("string", T, mem, isarr, maxlen)
     res, exc = lab.string(T, mem, isarr, maxlen)
-    return {"k": "string", "W": lab.W(T), "mem": list(mem), "isarr": isarr, "maxlen": maxlen,
-            "res": res or [], "exc": exc, "T": T, "how": "array" if isarr else "pointer"}
+    return {"k": "string", "W": lab.W(T), "mem": list(mem), "isarr": bool(isarr), "maxlen": maxlen,
+            "res": res or [], "exc": exc, "T": T, "how": VIEW[isarr]}
 
 
 def rec_unpack(lab, T, mem, isarr, n):
     about("unpack", T, mem, isarr, n)
     res, exc = lab.unpack(T, mem, isarr, n)
     return {"k": "unpack", "W": lab.W(T), "mem": list(mem), "n": n, "res": res or [], "exc": exc,
-            "T": T, "how": "array" if isarr else "pointer"}
+            "T": T, "how": VIEW[isarr]}
 
 
 def execute(lab, d):
@@ -182,8 +186,8 @@ def execute(lab, d):
     if k == "new":
         return rec_new(lab, d["T"], d["decl"], d["s"], d["how"])
     if k == "string":
-        return rec_string(lab, d["T"], d["mem"], d["isarr"], d["maxlen"])
-    return rec_unpack(lab, d["T"], d["mem"], d["how"] == "array", d["n"])
+        return rec_string(lab, d["T"], d["mem"], UNVIEW[d["how"]], d["maxlen"])
+    return rec_unpack(lab, d["T"], d["mem"], UNVIEW[d["how"]], d["n"])
 
 
 def detect_variant(lab):
@@ -320,7 +324,7 @@ def rand_len(rng):
 def driver(ctx, lab, recs, n):
     rng = ctx.rng
     Ts = list(mt.TYPES)
-    for _ in range(n):
+    while len(recs) < n:
         T = rng.choice(Ts)
         W = lab.W(T)
         k = rng.random()
@@ -344,9 +348,9 @@ def driver(ctx, lab, recs, n):
         elif k < 0.85:
             L = rand_len(rng)
             mem = rand_units(rng, W, L)
-            isarr = rng.random() < 0.6
+            isarr = rng.choice([True, True, False, False, "field"])
             maxlen = rng.choice([-1, rng.randint(0, L), L, rng.randint(0, L + 5)])
-            if (maxlen > L or (maxlen < 0 and not isarr)) and 0 not in mem:
+            if (maxlen > L or (maxlen < 0 and isarr is False)) and 0 not in mem:
                 mem[rng.randrange(L)] = 0                            # reading stays inside the array
             rec = rec_string(lab, T, mem, isarr, maxlen)
             ctx.case(("string", T, L, isarr, maxlen))
@@ -354,9 +358,61 @@ def driver(ctx, lab, recs, n):
             L = rand_len(rng)
             mem = rand_units(rng, W, L)
             nn = rng.randint(0, L)
-            rec = rec_unpack(lab, T, mem, rng.random() < 0.5, nn)
+            rec = rec_unpack(lab, T, mem, rng.choice([True, False, "field"]), nn)
             ctx.case(("unpack", T, L, nn))
         recs.append(rec)
+
+
+def surrogate_cases(ctx, lab, recs):
+    """The input class where the two loops of a UTF-16 decoder can disagree, generated systematically: lone high +
+    high, lone high + pair, pair + lone high at the end, lone low + low, lone low + high, each alone and with another
+    genuine pair before / after / both, read through string(), string(maxlen), unpack and as a struct field, and
+    stored through ffi.new / assignment (as the corresponding code point strings)."""
+    rng = ctx.rng
+    H, H2, L_, L2 = 0xD800, 0xDBFF, 0xDC00, 0xDFFF
+    P, Q = [0xD83D, 0xDE00], [0xDBFF, 0xDFFF]
+    cores = [[H, H2], [H] + P, P + [H], [L_, L2], [L_, H], [H, H2] + P, [H, H2, L2], [H2, H] + Q, P + [H, H2], [H]]
+    seqs = []
+    for c in cores:
+        seqs += [c, Q + c, c + Q, [0x41] + c + [0x42] + Q, Q + c + P]
+    for T in ("char16_t", "wchar_t", "char32_t"):
+        W = lab.W(T)
+        for u in seqs:
+            if W == 4 and rng.random() < 0.8:
+                continue                                  # 4-byte units: nothing to join; a sample is enough
+            mems = [u, u + [0, 0x43]]
+            for mem in mems:
+                L = len(mem)
+                views = [True, "field"] + ([False] if 0 in mem else [])
+                for v in views:
+                    recs.append(rec_string(lab, T, mem, v, -1))
+                    ctx.case(("sur-string", T, tuple(mem), v))
+                for maxlen in range(0, L + 1):
+                    recs.append(rec_string(lab, T, mem, rng.choice([True, False, "field"]), maxlen))
+                for nn in range(0, L + 1):
+                    recs.append(rec_unpack(lab, T, mem, rng.choice([True, False, "field"]), nn))
+                ctx.case(("sur-reads", T, tuple(mem)), n=2 * L + 2)
+            # the same sequence as a Python string: units -> code points (pairs joined by the specification's
+            # own rule would hide the class, so the units are taken as code points, plus the joined form)
+            for s in (list(u), joined(u)):
+                n0 = nunits(W, s)
+                recs.append(rec_new(lab, T, -1, s, "array"))
+                recs.append(rec_new(lab, T, n0 + 2, s, rng.choice(mt.NEW_HOWS)))
+                recs.append(rec_assign(lab, T, [0x61] * (n0 + 3), s, rng.choice(mt.ASSIGN_HOWS)))
+                ctx.case(("sur-store", T, tuple(s)), n=3)
+
+
+def joined(u):
+    """the str whose UTF-16 encoding is u when u's genuine pairs are written as astral characters"""
+    out, i = [], 0
+    while i < len(u):
+        if 0xD800 <= u[i] <= 0xDBFF and i + 1 < len(u) and 0xDC00 <= u[i + 1] <= 0xDFFF:
+            out.append(0x10000 + ((u[i] - 0xD800) << 10) + (u[i + 1] - 0xDC00))
+            i += 2
+        else:
+            out.append(u[i])
+            i += 1
+    return out
 
 
 def strip(rec):
@@ -364,7 +420,8 @@ def strip(rec):
 
 
 def judge(ctx, recs, report=True):
-    verdicts, diverge, totals = batch_verdicts(ctx, "Trace_Text", [strip(r) for r in recs], chunk=5500)
+    verdicts, diverge, totals = batch_verdicts(ctx, "Trace_Text", [strip(r) for r in recs],
+                                               chunk=max(3000, -(-len(recs) // 3)) if ctx.quick else 5000)
     nbad = 0
     for i in sorted(verdicts):
         rec = recs[i]
@@ -390,7 +447,9 @@ def produce(cc, args):
     recs = []
     div = replay_graph(cc, lab, variant, recs)
     ngraph = len(recs)
-    driver(cc, lab, recs, 2500 if cc.quick else 40000)
+    surrogate_cases(cc, lab, recs)
+    cc.cov["surrogate_class_records"] = len(recs) - ngraph
+    driver(cc, lab, recs, len(recs) + (2500 if cc.quick else 40000))
     return {"recs": recs, "div": div, "variant": variant, "ngraph": ngraph}
 
 
